@@ -485,8 +485,8 @@ Section ArrivalTheorems.
 
   (* SOUNDNESS of the arrival burst: every delivered event is justified by an operation of the burst.  (Contract EQUALITY does
      not hold for this burst: the stream follows the walk order, not the order of the operations - all sub-directories of a
-     directory before its files, a directory's content after its siblings - and the created events of the walk carry their
-     parent's DirModified once per entry, whereas operation-by-operation delivery interleaves them differently.) *)
+     directory before its files, a directory's content after its siblings - and a touch below p contributes only FileCreated
+     and the parent's DirModified: the FileOpened / FileClosed of its contract happened in a directory not yet watched.) *)
   Theorem arrival_sound w k r p rest : RSync C w k r -> npath p -> c_recursive C = true -> scope C p ->
     N.land IN_CREATE (c_mask C) <> 0%N -> Forall (below_op p) rest ->
     forall w1, apply_op w (Mkdir p) = Some w1 ->
